@@ -493,7 +493,7 @@ func raceViolations(work string, part fw.Part, batch int) []fw.Violation {
 	return vs
 }
 
-var raceFrameRe = regexp.MustCompile(`^\s+((?:github\.com/Comcast/sheens|main|verif)[^\s(]*)\(`)
+var raceFrameRe = regexp.MustCompile(`^\s+((?:github\.com/Comcast/sheens|main|verif)\S*?)\(\)\s*$`)
 
 // raceSig: innermost sheens (or harness) function of each of the two accesses, sorted.
 func raceSig(blk string) string {
